@@ -273,11 +273,11 @@ func (a *acc) absorb(rr *runResult, key string) {
 		res.Sample = map[string]any{"protocol": rr.p.String(), "script": rr.script, "cancel": rr.opts.cancel, "racy": rr.opts.racy, "wire": rr.opts.wire, "trace": traceStrings(rr.trace, 24)}
 	}
 	for _, f := range m.findings {
-		mk, _ := json.Marshal(f.match)
-		cls := f.kind + string(mk)
+		// at most one witness per (oracle, cause class) and case goes to the result; the rest is counted
+		cls := f.kind + "/" + f.match["cause"]
 		a.classes[cls]++
 		res.Count("findings."+f.kind, 1)
-		if a.classes[cls] > 2 {
+		if a.classes[cls] > 1 {
 			res.Count("findings_not_listed_individually", 1)
 			continue
 		}
